@@ -1,0 +1,26 @@
+//go:build verif
+
+// Verification hook (build tag "verif") for the request-context checks of /verif (property C13): read-only.
+
+package mcp
+
+import (
+	"context"
+	"fmt"
+)
+
+// VerifSenderInfo reports which notification sender a context carries:
+// ("none", "") | ("noop", "") | ("sse", <session id the sender is bound to>) | ("other:<type>", "").
+func VerifSenderInfo(ctx context.Context) (string, string) {
+	s, ok := GetNotificationSender(ctx)
+	if !ok || s == nil {
+		return "none", ""
+	}
+	switch v := s.(type) {
+	case *sseNotificationSender:
+		return "sse", v.sessionID
+	case *noopNotificationSender:
+		return "noop", ""
+	}
+	return fmt.Sprintf("other:%T", s), ""
+}
